@@ -648,6 +648,18 @@ impl<'a> Parser<'a> {
             return Err(self.err("expected digits"));
         }
         debug_assert!(self.i > start);
+        if v >= 9_007_199_254_740_992.0 {
+            // Above 2^53 the digit-by-digit sum has rounded once per digit: read the field as
+            // one decimal number instead.
+            let text: String = self.b[start..self.i]
+                .iter()
+                .filter(|c| **c != b'_')
+                .map(|c| *c as char)
+                .collect();
+            v = text
+                .parse::<f64>()
+                .map_err(|_| self.err("invalid integer field"))?;
+        }
         Ok((v, digits))
     }
 
